@@ -312,7 +312,7 @@ static int cabd_read_headers(struct mspack_system *sys,
                              off_t offset, int salvage, int quiet)
 {
   int num_folders, num_files, folder_resv, i, x, err, fidx;
-  struct mscabd_folder_p *fol, *linkfol = NULL;
+  struct mscabd_folder_p *fol, *linkfol = NULL, *mnfol, *mpfol;
   struct mscabd_file *file, *linkfile = NULL;
   unsigned char buf[64];
 
@@ -455,6 +455,7 @@ static int cabd_read_headers(struct mspack_system *sys,
     file->offset   = EndGetI32(&buf[cffile_FolderOffset]);
 
     /* set folder pointer */
+    mnfol = mpfol = NULL;
     fidx = EndGetI16(&buf[cffile_FolderIndex]);
     if (fidx < cffileCONTINUED_FROM_PREV) {
       /* normal folder index; count up to the correct folder */
@@ -479,9 +480,8 @@ static int cabd_read_headers(struct mspack_system *sys,
         while (ifol->next) ifol = ifol->next;
         file->folder = ifol;
 
-        /* set "merge next" pointer */
-        fol = (struct mscabd_folder_p *) ifol;
-        if (!fol->merge_next) fol->merge_next = file;
+        /* remember to set "merge next" pointer, if this entry is kept */
+        mnfol = (struct mscabd_folder_p *) ifol;
       }
 
       if ((fidx == cffileCONTINUED_FROM_PREV) ||
@@ -490,9 +490,8 @@ static int cabd_read_headers(struct mspack_system *sys,
         /* get first folder */
         file->folder = cab->base.folders;
 
-        /* set "merge prev" pointer */
-        fol = (struct mscabd_folder_p *) file->folder;
-        if (!fol->merge_prev) fol->merge_prev = file;
+        /* remember to set "merge prev" pointer, if this entry is kept */
+        mpfol = (struct mscabd_folder_p *) file->folder;
       }
     }
 
@@ -523,6 +522,11 @@ static int cabd_read_headers(struct mspack_system *sys,
     if (!linkfile) cab->base.files = file;
     else linkfile->next = file;
     linkfile = file;
+
+    /* only an entry that is kept may become a folder's merge file: a
+     * skipped entry has just been freed */
+    if (mnfol && !mnfol->merge_next) mnfol->merge_next = file;
+    if (mpfol && !mpfol->merge_prev) mpfol->merge_prev = file;
   }
 
   if (cab->base.files == NULL) {
